@@ -254,7 +254,6 @@ def translate(_ctx):
 # region (3) seeded edits: catalogue
 
 LICENSE_LINES = 20
-SIG_PRAGMA_EMPTY_LINE = 'PragmaOnceValidator:empty-line-after-pragma-once-is-never-reported'
 
 
 def _width(line):
@@ -503,8 +502,13 @@ class PragmaOnceEmptyLine(Family):
 		return [index for index, line in enumerate(lines[:-1]) if '#pragma once' == line and lines[index + 1].startswith('#include')]
 
 	def apply(self, lines, site, rng):
-		return _insert(lines, site + 1, ''), {
-			'group': 'pragmaErrors', 'lineno': site + 2, 'kind': 'Empty line after `#pragma once`', 'signature': SIG_PRAGMA_EMPTY_LINE}
+		new_lines = _insert(lines, site + 1, '')
+		# the linter reports the rule with the number of the LAST empty line it saw after `#pragma once` (empty_line_number is
+		# overwritten by every later empty line); lines of a later column-0 `/** ... **/` block are not looked at
+		empties = [index + 1 for index, line in enumerate(new_lines[:-1]) if not line and index > site]
+		later_notice = any(line.startswith('/**') for line in new_lines[site:])
+		return new_lines, {
+			'group': 'pragmaErrors', 'lineno': None if later_notice else empties[-1], 'kind': 'Empty line after `#pragma once`'}
 
 
 class LicenseEdit(Family):
@@ -1291,8 +1295,7 @@ MANIFEST = {
 		'(search_context) and every table entry has a kernel-checked witness (typo_witnesses, validator_witnesses, re-generated from '
 		'validation.py on every run); seeded-edit theorems for the modelled line rules (trailing whitespace, spaces at start, tabs in empty '
 		'line, tab inside, line length with tabs as 4 incl. the boundary, consecutive / near-end blank lines, mistyped region comment, typo '
-		'insertion) with undo theorems; exit_is_count and shell_status_wraps; pragma_empty_line_rule_is_dead (a rule of the pinned code that '
-		'can never fire - open finding). Executed on the real code: the CI command over the whole tree (42 suites silent, exit 0) and ~2000 (quick) seeded '
+		'insertion, empty line after #pragma once) with undo theorems; exit_is_count and shell_status_wraps. Executed on the real code: the CI command over the whole tree (42 suites silent, exit 0) and ~2000 (quick) seeded '
 		'edits of every catalogue family incl. the unmodelled ones, each linted alone, after a dirty file, and undone.'),
 	'level_note': (
 		'Not modelled: Parser.NamespacesParser and forwardsValidation (PLY-tokenised C++), MultiConditionChecker, SingleLineValidator, '
